@@ -291,7 +291,7 @@ pub fn build(tier: &str) -> SimCheck {
         scenarios,
         oracle: Box::new(oracle),
         bound: if thorough { 3 } else { 2 },
-        limits: Limits { max_wall_s: if thorough { 1500.0 } else { 55.0 }, ..Default::default() },
+        limits: Limits { max_wall_s: if thorough { 1500.0 } else { 150.0 }, ..Default::default() },
         rule: "a RELOAD of an unrelated general setting between client A and client B (the pool is kept; B must be told, and run with, the defaults); the same in session mode; client B also with an application_name of its own (unrelated / equal to A's up to letter case); scenario = pool_size {1,2} x operation of client A (startup parameter, SET, SET twice, SET with an untracked SET, SET then RESET ALL, SET inside a rolled-back / committed transaction) x tracked parameter x value (free text incl. space, quote, backslash, non-ASCII, empty for application_name; valid alternates for the others); client B uses defaults and shares the connection(s); every schedule with <= bound deviations; at every tagged statement the backend's value of each tracked parameter must equal what that client was told by ParameterStatus and what it established".into(),
         assumptions: vec!["reference backend reports ParameterStatus like PostgreSQL 14 (before ReadyForQuery, also on RESET ALL and ROLLBACK)".into()],
     }
